@@ -35,9 +35,12 @@ def gen_network(rng, max_units, force=None):
     if force == "bare":
         # a head directly on one affine layer: no activation, no decision above the head
         nlin, acts = 1, ["none"]
+    if force == "close":
+        acts = ["relu", "relu", "hardtanh", "leaky"]
+        nlin = rng.choice([1, 2])
     w_fixed = rng.choice([1, 2, 2, 3])
     for li in range(nlin):
-        w = w_fixed if force == "leaky" else rng.choice([2, 3] if force == "bare" else [1, 2, 2, 3])
+        w = w_fixed if force == "leaky" else rng.choice([2, 3] if force in ("bare", "close") else [1, 2, 2, 3])
         M = gen.mat(rng, w, dim, pzero=0.15)
         c = gen.vec(rng, w)
         s = rng.random()
@@ -47,6 +50,10 @@ def gen_network(rng, max_units, force=None):
                 c[1] = c[0]          # coincident breakpoints / argmax ties on whole regions
                 if rng.random() < 0.5:
                     c[1] = c[0] + rng.choice([FR(1), FR(-1), FR(1, 2), FR(-3)])      # parallel: an input-independent comparison
+        elif force == "close" and li == 0 and w >= 2:
+            # two breakpoints 2^-21 / 2^-22 apart: a region far thinner than tau = 1e-6 but far wider than any LP tolerance
+            M[1] = list(M[0])
+            c[1] = c[0] - rng.choice([FR(1, 2**21), FR(1, 2**22)])
         elif s < 0.18:
             M[0] = [FR(0)] * dim     # zero row: constant neuron
         elif s < 0.25 and w >= 2:
@@ -110,7 +117,7 @@ def make_cases(chk):
     quick = chk.tier == "quick"
     cases = []
     for i in range(160 if quick else 3000):
-        n, layers = gen_network(rng, 6 if quick else 9, force={0: "dup", 4: "leaky", 8: "bare"}.get(i % 11))
+        n, layers = gen_network(rng, 6 if quick else 9, force={0: "dup", 4: "leaky", 8: "bare", 6: "close"}.get(i % 11))
         kind, pre = gen_pre(rng, n)
         steps = [{"op": "layers", "name": "L", "layers": netref.layers_to_driver(layers)}]
         if pre is not None:
@@ -121,7 +128,7 @@ def make_cases(chk):
         else:
             steps.append({"op": "from_layers", "name": "t", "dim": n, "layers": "L"})
         steps.append({"op": "export", "tree": "t"})
-        cases.append({"id": "n%d" % i, "steps": steps, "layers": layers, "n": n, "pre": pre,
+        cases.append({"id": "n%d" % i, "steps": steps, "layers": layers, "n": n, "pre": pre, "tau": FR(1, 2**26) if i % 11 == 6 else None,
                       "meta": {"in_dim": n, "layers": [l["t"] for l in layers], "pre": kind, "units": netref.n_units(layers)}})
     return cases
 
@@ -223,7 +230,7 @@ def solve_case(args):
         fat = True
         if inside_pre:
             _, conds, _ = netref.net_exact(layers, xf)
-            fat = region_is_fat(q, conds, pre)
+            fat = region_is_fat(q, conds, pre, tau=case.get("tau") or TAU)
         out["cands"].append({"point": [str(v) for v in m], "fat": fat, "inside_pre": inside_pre, "node": pc.node})
     if canary:
         # deliberately wrong reference: first output + 1 must be refuted on some piece
